@@ -501,6 +501,29 @@ def check_front_axes(ctx, rep, only=None):
                     rep.bad('C10.P', f"{mname.replace('torchtree.', '')}.{scope}::{txt[:60]}", where(m, c), {'axes': vals},
                             f"{scope}: `{txt[:70]}` exchanges axis {vals[0]} with axis {vals[1]} — one counted from the front, one from the end — on a value that can carry sample "
                             f"dimensions: which axis the front index hits depends on the number of sample dimensions; with [S, K] it is a sample axis and the samples are permuted")
+    # hstack / vstack / dstack / column_stack / row_stack address axes 1 / 0 / 2 counted from the FRONT without saying so: on values with sample dimensions they join along a
+    # sample axis (or, for [B, 1] inputs, along the event axis only by coincidence of the rank)
+    for mname, m in sorted(ctx.prog.modules.items()):
+        if not any(mname.startswith(p) or mname == p.rstrip('.') for p in SCOPE_PACKAGES):
+            continue
+        if only is not None and not only(mname):
+            continue
+        for fn in ast.walk(m.tree):
+            if not isinstance(fn, ast.FunctionDef) or fn.name in SKIP_METHODS:
+                continue
+            defs = local_assignments(fn)
+            cl = getattr(fn, '_parent', None)
+            scope = f"{cl.name}.{fn.name}" if isinstance(cl, ast.ClassDef) else fn.name
+            for c in ast.walk(fn):
+                if isinstance(c, ast.Call) and (dotted_name(c.func) or '') in ('torch.hstack', 'torch.vstack', 'torch.dstack', 'torch.column_stack', 'torch.row_stack') and c.args:
+                    seq = c.args[0]
+                    first = seq.elts[0] if isinstance(seq, (ast.List, ast.Tuple)) and seq.elts else seq
+                    n += 1
+                    if may_be_batched(first, fn, defs):
+                        txt = norm_text(c)
+                        rep.bad('C10.P', f"{mname.replace('torchtree.', '')}.{scope}::{txt[:60]}::stack-along-a-front-axis", where(m, c), None,
+                                f"{scope}: `{txt[:60]}` joins along an axis counted from the front (hstack: axis 1, or 0 for 1-d inputs): with one more sample dimension the pieces are "
+                                f"joined along a SAMPLE axis — the categories end up in different samples and the last axis no longer holds one entry per category")
     # axis 0 of a value that may carry sample dimensions is its first SAMPLE axis unless the value is known to have none: `x.unsqueeze(0)` under a test of the rank of x is
     # the un-batched branch; under a test of the rank of ANOTHER value it is applied to x whatever its own sample shape ([S,1] -> [1,S,1]: the samples of x slide onto the
     # next axis of whatever it is combined with)
